@@ -24,3 +24,9 @@ add("C14", "model_checking",
     "Bitmask.HasBitsIn is decided for all sizes<=18, all (l,r), all masks (<=10 bits fully, <=2 set bits above); MIDsDistribution soundness for all small maps, added MID subsets and query intervals, directly and after the JSON round trip used by .frac-cache; on real fractions (scaled block constants) with documents >24h, >10min before creation and after it, in one or two fractions, active / sealed / reloaded through .frac-cache, Searcher.SearchDocs (fraction skipping + LID border narrowing) equals the reference search over every interval of a border grid.",
     "Trusted: refdb; wall clock only positions the documents (ages are relative to now), no timing decides a verdict. Only soundness of pruning is required, not precision.",
     "DESIGN.md §3 C14", "E3-smallscope")
+
+add("C04", "model_checking",
+    "exhaustive enumeration of fetch ID lists (present/absent at every border, all hint kinds, two API levels) against stores running in worker subprocesses; process death/hang is an observation",
+    "Seven corpora (active, sealed, overlapping fractions, equal timestamps, document sizes 2..200 B) are served by real stores (storeapi.NewStore) inside worker processes; every list of <=3 (thorough 4) distinct IDs over the present IDs and absent IDs placed at every border of every fraction, with every hint kind, is fetched through Fetcher.FetchDocs and through the streaming GrpcV1.Fetch and compared position by position with the ingested bytes; lists of 1001..2500 IDs exercise the chunk re-sizing at the real constant. Because the defects of this property kill or wedge the process (found: divide by zero in the batch loader, out-of-range in the sealed ID lookup; both repaired by fix: commits), the store runs in a child whose death is attributed to the request and reproduced before it is reported.",
+    "Trusted: the bulk encoder of the harness (same layout as the proxy's). MaxFetchSizeBytes is a fixed 4 MiB, so re-sized chunks never drop below the list lengths explored; the 100k-ID end of the quantifier is not enumerated.",
+    "DESIGN.md §3 C04", "E3-smallscope")
